@@ -39,9 +39,19 @@ class Sequence:
         self._loop_task = asyncio.create_task(self._loop())
 
     async def cancel(self) -> None:
-        if self._loop_task:
-            self._loop_task.cancel()
-            await self._loop_task
+        task = self._loop_task
+        if task:
+            task.cancel()
+            try:
+                await task
+            except asyncio.CancelledError:
+                # A loop task that has been (re)armed but hasn't started running yet ends up cancelled (as opposed
+                # to one that catches the cancellation while sleeping); anything else is our caller being cancelled.
+                if not task.cancelled():
+                    raise
+
+            if self._loop_task is task:
+                self._loop_task = None
 
     async def _loop(self) -> None:
         for i, value in enumerate(self._values):
@@ -55,6 +65,9 @@ class Sequence:
                     await asyncio.sleep(self._delays[i] / 1000.0)
                 else:
                     if self._repeat > 0 and self._counter >= self._repeat - 1:
+                        # Let the (fire-and-forget) callback submit the last value before reporting the sequence as
+                        # finished, so that nothing is written after the owner sees no active sequence
+                        await asyncio.sleep(0)
                         await self._finish_callback()
 
                         return
